@@ -25,6 +25,12 @@ claimed = {
  "C10": dict(cat="model_checking",
    text="Kernel K1 (queue graphs): every parent assignment of N=3 (quick) / 4 (thorough) Queue objects - parent none, any queue including itself, or a missing queue, (N+2)^N graphs - goes through the real cluster_info.UpdateQueueHierarchy and then through every queue-hierarchy walker of the proportion plugin, capacity policy and reclaimable with a job in each surviving queue; a panic or a loop exceeding 64 iterations on a feasible path is the violation (non-termination witness by pigeonhole over N queues) and is replayed natively with a timeout; queues of well-formed graphs must all survive (healthy workloads still scheduled). This kernel explores structure by case-splitting (Choose), the quantities are concrete; symbolic-number kernels for malformed pod groups and GPU annotations are listed under C10 in DESIGN.md as they are added.",
    ref="DESIGN.md section 5 C10"),
+ "C13": dict(cat="model_checking",
+   text="Every well-formed program of L=3 (quick) / 4 (thorough) statement operations - Allocate, Pipeline (both updateTaskIfExistsOnNode values where the actions can pass them), Evict, Unevict, Checkpoint, Rollback(any earlier checkpoint), end - over 2 tasks / 1 node (quick) or 3 tasks / 2 nodes (thorough), from every initial session state (each task Pending, Running or Releasing, placed by the real NodeInfo.AddTask) with symbolic node capacity and task requests, is run through the real framework.Statement on a session with the real proportion allocate/deallocate handlers. After Discard, and after every Rollback, the solver decides term-by-term equality of a canonical dump (node idle/used/releasing in structured and vector form, shared-GPU maps, pods on node, task status/node/groups/virtual flag, job allocated + status index + counters + pod-set counters, queue allocated and non-preemptible at both levels) with the dump taken at that point, and that the cache saw no call; after Commit, each pod is bound, nominated or evicted at most once and exactly the pods whose final virtual status is Allocated / Pipelined / Releasing. Exhaustive over programs within the bound; quantities symbolic.",
+   ref="DESIGN.md section 5 C13"),
+ "C14": dict(cat="model_checking",
+   text="Same programs as C13: after snapshot-style construction and after every statement operation, the solver decides that every incrementally maintained aggregate equals ground truth recomputed by the harness from the task list only: node Used = sum of active pods, Releasing = releasing - pipelined, Idle = allocatable - (used - pipelined), pod counts, vector == structured form; job Allocated, status index membership, active-allocated counter; queue allocated / non-preemptible allocated at both hierarchy levels = bound plus nominated pods. One resource dimension (cpu or whole GPUs) symbolic at a time.",
+   ref="DESIGN.md section 5 C14"),
 }
 
 na_reasons = {}
